@@ -136,10 +136,50 @@ let () =
              (match ss.(k) with Some s -> ss.(k) <- Some (s_reopen s) | None -> ())
            done;
            out "E" "ok" "ok"
+         | "O", k :: w :: h :: nc :: ct :: n :: bytes ->
+           if k < 0 || k >= nslot || ms.(k) <> None || w <= 0 || h <= 0 || (nc <> 1 && nc <> 3)
+              || n <> w * h * nc || List.length bytes <> n then out "O" "fail" "fail"
+           else begin
+             let b = List.map z_of_int bytes in
+             ms.(k) <- Some (m_legacy (nat_of_int w) (nat_of_int h) (nat_of_int nc) (nc = 1 && ct = 1) b);
+             ss.(k) <- Some (s_legacy (nat_of_int w) (nat_of_int h) (nat_of_int nc) b);
+             (* the session is closed and reopened around DFR8addimage / DF24addimage *)
+             for j = 0 to nslot - 1 do
+               if j <> k then begin
+                 (match ms.(j) with Some m -> ms.(j) <- Some (m_reopen m) | None -> ());
+                 (match ss.(j) with Some s -> ss.(j) <- Some (s_reopen s) | None -> ())
+               end
+             done;
+             out "O" "ok" "ok"
+           end
+         | "X", k :: c0 :: c1 :: o0 :: o1 :: n :: bytes ->
+           (match slot k with
+            | Some (m, s) when c0 > 0 && c1 > 0 && o0 >= 0 && o1 >= 0 && List.length bytes = n && m.m_store = StChunk ->
+              let b = List.map z_of_int bytes in
+              let (a0, a1, b0, b1) = (nat_of_int c0, nat_of_int c1, nat_of_int o0, nat_of_int o1) in
+              let sstr = if sdead.(k) then "nodomain" else
+                  (match s_writechunk s a0 a1 b0 b1 b with
+                   | Some s' -> ss.(k) <- Some s'; "ok" | None -> sdead.(k) <- true; "nodomain") in
+              let mstr = (match m_writechunk m a0 a1 b0 b1 b with
+                  | Some m' -> ms.(k) <- Some m'; "ok" | None -> "fail") in
+              out "X" mstr sstr
+            | _ -> out "X" "fail" "fail")
+         | "Y", [k; c0; c1; o0; o1; _] ->
+           (match slot k with
+            | Some (m, s) when c0 > 0 && c1 > 0 && o0 >= 0 && o1 >= 0 && m.m_store = StChunk ->
+              let (a0, a1, b0, b1) = (nat_of_int c0, nat_of_int c1, nat_of_int o0, nat_of_int o1) in
+              let f = function Some b -> "ok" ^ bytes_str b | None -> "fail" in
+              let sstr = if sdead.(k) then "nodomain" else
+                  (match s_readchunk s a0 a1 b0 b1 with Some b -> "ok" ^ bytes_str b | None -> "nodomain") in
+              out "Y" (f (m_readchunk m a0 a1 b0 b1)) sstr
+            | _ -> out "Y" "fail" "fail")
+         | "U", n :: bytes when List.length bytes = n ->
+           let (dec, enc) = u_case (List.map z_of_int bytes) in
+           out "U" ("ok" ^ bytes_str dec ^ " |" ^ bytes_str enc) ("ok" ^ bytes_str (List.map z_of_int bytes))
          | "D", [k] ->
            (match slot k with
             | Some (m, _) ->
-              (match m_dump m with
+              (match (if m.m_store = StRle8 then m_dump_rle m else m_dump m) with
                | Some b -> out "D" ("ok " ^ string_of_int (List.length b) ^ bytes_str b) "-"
                | None -> out "D" "none" "-")
             | None -> out "D" "fail" "-")
